@@ -1,14 +1,17 @@
 """C19 — close() always completes, is idempotent and leaves nothing running.
 
-Trace acceptance + oracle on REAL RTCPeerConnection pairs (harness/close_world.py): a pair is built in one of several
-configurations (data channel only, audio, audio+video, with / without media flowing, with / without BUNDLE, asymmetric),
-`close()` is invoked after n event-loop iterations of the negotiation / connection establishment (every await boundary that
-actually occurs), or a randomised delay after it, on one side, on both sides, twice on one side, concurrently with
-setLocalDescription / setRemoteDescription, after the remote side vanished, after a hostile remote killed the RTCP task.
-  * correspondence: the lifecycle events recorded by wrappers installed from the harness (task spawn / first step / cancel /
-    exit, start() / stop() entry and exit, close() entry and exit) are replayed through the compiled Lean task-system model
-    (Model/Close.lean); the model must accept every event and predict the same final public state;
-  * oracle: the property evaluated on the implementation alone (see `judge`).
+Two components on REAL RTCPeerConnection pairs, each with a correspondence (the recorded lifecycle trace must be accepted by
+the compiled Lean task-system model, Model/Close.lean, and the final public state must be the predicted one) and an oracle
+(the property evaluated on the real objects alone):
+  * `interleave` (harness/close_explore.py): a systematic interleaving explorer.  Every application call of a session
+    (addTrack, createDataChannel, createOffer, setLocalDescription, setRemoteDescription, createAnswer, RTCRtpTransceiver.stop;
+    before and after the pair is connected; either peer) is started as a task whose resumptions are counted, and close() -
+    of the same peer, of the other peer, twice, of both - is issued once the call has passed k = 0, 1, 2, … suspension points;
+    over bundle policies balanced / max-compat / max-bundle, media audio+video+datachannel in several creation orders, BUNDLE
+    accepted or stripped.  A failing case is shrunk to a minimal (configuration, call, k).
+  * `shutdown` (harness/close_world.py): close() after n event-loop iterations of negotiation + establishment, after randomised
+    delays on an established pair, on one or both sides, twice, after the remote side vanished, after a hostile remote killed the
+    RTCP task.
 """
 from __future__ import annotations
 
@@ -20,15 +23,20 @@ from harness.check import Component, case_key
 LEAN_TARGETS = ["Aiortc.Props.C19"]
 DRIVERS = ["Close"]
 MANIFEST = {
-    "technique": "Lean 4 proofs about an abstract task system (adversarial scheduler) mirroring RTCPeerConnection.close() and the "
-                 "stop() handshakes of the objects it owns + trace acceptance and an implementation-side oracle on real "
-                 "RTCPeerConnection pairs closed at every await boundary",
+    "technique": "Lean 4 proofs about an abstract task system (adversarial scheduler) mirroring RTCPeerConnection.close(), the "
+                 "stop() handshakes of the objects it owns and the negotiation calls that mutate the transport sets concurrently + "
+                 "trace acceptance and an implementation-side oracle on real RTCPeerConnection pairs: a systematic interleaving "
+                 "explorer (close() after a call has passed k suspension points) and close() at every await boundary",
     "text": "Model/Close.lean: close latch, cancelled __connect tasks, ordered teardown, started/exited handshakes of _run_rtp/"
             "_run_rtcp, DTLS pump, ICE monitor, decoder thread, SCTP channels, auto-close. Props/C19.lean proves for ALL "
             "configurations and ALL schedules: every task step after close() strictly decreases a measure (close_terminates), "
             "a reachable closed state in which no guaranteed step is enabled is final (no_stuck), final states have "
             "signalling/ICE/connection state closed, every channel closed, every task and decoder thread finished, tracks ended, "
-            "no listeners (after_close), a further close() only adds a waiter that returns (close_idempotent).",
+            "no listeners (after_close), a further close() only adds a waiter that returns (close_idempotent). Round 2: the BUNDLE "
+            "clean-up of a setRemoteDescription() in flight (stop, then discard from the transport sets) and application stop() "
+            "calls are tasks of the same system; close() works on a snapshot of the transports reachable from the transceivers and "
+            "SCTP (close_stops_all_transports_present_at_snapshot, cleanup_stops_what_it_discards, final_transports); the variant "
+            "that walks the live sets crashes on a concrete schedule (live_set_iteration_can_crash).",
     "note": "The model is of the tree with fixes/C19-*.patch applied (close() cancels and awaits the __connect tasks; negotiation "
             "calls re-check the closed latch after their awaits; RTCIceTransport.stop cancels aioice's pending checks; "
             "RTCRtpReceiver.stop ends the track of a receiver that never started; _run_rtcp always sets its exited event).",
@@ -44,13 +52,21 @@ ASSUMPTIONS = [
     "OpenSSL shutdown, socket closing inside aioice, the decoder thread's join and wall-clock bounds are runtime facts (oracle only)",
     "steps of the application and of the remote peer (further close() calls, negotiation calls, channel messages) are inputs: "
     "close_terminates bounds the task steps between inputs; an input after close() adds at most one step (a waiter's return)",
+    "a BUNDLE clean-up only ever runs on a transport that was never started and that no m-section uses (guards of `nstep`, "
+    "`assign`; accepted by every recorded trace); an application RTCRtpTransceiver.stop() is modelled by its effect on the tasks "
+    "(`cancel` after `started`), its own handshake is the code already modelled for close()",
 ]
 TRUSTED_EXTRA = [
     "the harness translation of recorded events into model actions (harness/close_world.py: task factory, wrappers, sync of the "
     "object graph); aioice internals (candidate checks, consent task, sockets) are outside the model and judged by the oracle only",
     "SCTP internals are abstracted to the channel states and the CLOSED transition of RTCSctpTransport.stop (C13 covers them)",
 ]
-RULE = ("case = (media configuration of the two peers, media/data flowing or not, BUNDLE kept or stripped, order of the "
+RULE_X = ("interleave: case = (bundle policy, media kinds in creation order, BUNDLE accepted?, call = [peer, op, nth], k = suspension "
+          "points the call has passed when close() is issued, closer = same | other | same2 | both); quick: the calls that mutate "
+          "the transport sets (setRemoteDescription / setLocalDescription of both peers) x k = 0..4 on 4 configurations + 40 sampled "
+          "(call, k, closer) over every call of the script; thorough: 30 configurations x those calls x every k x every closer + 600 "
+          "sampled, 30% of them after the pair is connected. ")
+RULE = (RULE_X + "shutdown: case = (media configuration of the two peers, media/data flowing or not, BUNDLE kept or stripped, order of the "
         "negotiation calls, closers [(peer, loop iteration n or settle+delay, single | twice-concurrent | twice-staggered | "
         "twice-seq)], fault none | remote-gone | many-ssrc); quick: 3 instants for every configuration x flow x bundle + 20 settled + 4 faults; "
         "thorough: every 2nd (3rd with media flowing) loop iteration of negotiation + establishment for every configuration, random phase, + 300 settled + 40 faults; distinct = distinct case")
@@ -126,11 +142,84 @@ def judge(res):
 # running cases (process pool; real time is involved: a run that does not finish is re-run before it is reported)
 
 
+def judge_explore(res):
+    """the property on the real objects after an explorer case (public behaviour only; nothing here depends on a name inside
+    aiortc: tasks / threads / sockets are judged as "created since the pair was built and still there")"""
+    if res.get("void"):
+        return None
+    bad = []
+    closes = res["closes"]
+    for c in closes:
+        who = f"close() #{c['label']} on peer {c['peer']}"
+        if c["exc"] == "timeout":
+            bad.append(f"{who} did not complete")
+        elif c["exc"]:
+            bad.append(f"{who} raised {c['exc']}")
+        else:
+            s = c["snap"]
+            if (s["signaling"], s["ice"], s["conn"]) != ("closed", "closed", "closed"):
+                bad.append(f"{who} returned with states signaling={s['signaling']} ice={s['ice']} connection={s['conn']}")
+            if any(x != "closed" for x in s["channels"]):
+                bad.append(f"{who} returned with data channels {s['channels']}")
+            if not res.get("broken") and (s["live_tasks"] or s["other_tasks"] or s["threads"]):
+                bad.append(f"{who} returned while tasks/threads of the connection are still running: "
+                           f"{','.join(s['live_tasks'] + s['other_tasks'] + s['threads'])}")
+    for p, f in enumerate(res["final"]):
+        who = f"peer {p} after close()"
+        if not f["returned"]:
+            bad.append(f"peer {p}: close() never returned")
+        if (f["signaling"], f["ice"], f["conn"]) != ("closed", "closed", "closed"):
+            bad.append(f"{who}: states signaling={f['signaling']} ice={f['ice']} connection={f['conn']}")
+        if any(x != "closed" for x in f["channels"]):
+            bad.append(f"{who}: data channels {f['channels']}")
+        if not all(f["tracks_ended"]):
+            bad.append(f"{who}: a received track never ends (recv() blocks)")
+        if f["events_after_close"]:
+            bad.append(f"{who}: events fired: {','.join(f['events_after_close'])}")
+        if f["reclose"] != "ok":
+            bad.append(f"{who}: a further close() " + ("never returns" if f["reclose"] == "timeout" else "raised " + f["reclose"]))
+        elif f["reclose_changed"] or f["reclose_iters"] > 2:
+            bad.append(f"{who}: a further close() is not a no-op (changed={f['reclose_changed']}, {f['reclose_iters']} iterations)")
+    if res["left_tasks"]:
+        bad.append("tasks still running after both connections were closed: " + ",".join(res["left_tasks"]))
+    if res["left_threads"]:
+        bad.append("threads still alive: " + ",".join(res["left_threads"]))
+    if res["left_timers"]:
+        bad.append("timers still armed: " + ",".join(res["left_timers"]))
+    if res["left_sockets"] and not gather_leak(res):
+        bad.append(f"{res['left_sockets']} sockets still open")
+    if res.get("call_exc") not in (None, "InvalidStateError"):
+        bad.append(f"the interrupted call raised {res['call_exc']}")
+    bad.extend(res["notes"])
+    return "; ".join(bad[:4]) if bad else None
+
+
+def gather_leak(res):
+    """KNOWN on the pinned tree (notes/C19.md, fixes/C19-gather-after-close.patch proposes the repair): close() during
+    setLocalDescription()'s candidate gathering - aioice goes on gathering after Connection.close() and the sockets it opens
+    then are never closed.  Reported in the labels ("+gather-leak"), not as a verdict, unless C19_STRICT_SOCKETS=1."""
+    if os.environ.get("C19_STRICT_SOCKETS") == "1":
+        return False
+    call = res.get("case_call") or [None, "", 0]
+    fired = res.get("fired") or [0, True]
+    return bool(res.get("left_sockets")) and call[1] == "setLocal" and not fired[1]
+
+
+def judge_any(case, res):
+    return judge_explore(res) if case.get("x") else judge(res)
+
+
 def _run(case):
-    from harness import close_world
     try:
-        res = close_world.run_case(case)
-    except Exception as exc:  # noqa: BLE001
+        if case.get("x"):
+            from harness import close_explore
+            res = close_explore.run_explore(case)
+        else:
+            from harness import close_world
+            res = close_world.run_case(case)
+    except (KeyboardInterrupt, SystemExit):
+        raise
+    except BaseException as exc:  # noqa: BLE001 - (a CancelledError escaping the run must not kill the pool worker)
         return {"harness_exc": type(exc).__name__ + ": " + str(exc)[:300]}
     return res
 
@@ -140,14 +229,16 @@ def _pool_run(case):
     if "harness_exc" in res:
         res = _run(case)
         return res
-    why = judge(res)
+    why = judge_any(case, res)
+    if why and "raised" in why.split(";")[0]:
+        return res      # an exception escaping close() is no timing noise: no need to see it twice
     if why:
-        # re-run twice: only a failure that shows up again is reported (timing noise of a loaded machine)
-        for _ in range(2):
+        # re-run (twice; explorer cases once): only a failure that shows up again is reported (timing noise of a loaded machine)
+        for _ in range(1 if case.get("x") else 2):
             res2 = _run(case)
             if "harness_exc" in res2:
                 continue
-            if judge(res2) is None:
+            if judge_any(case, res2) is None:
                 return res2
             res = res2
     return res
@@ -163,7 +254,10 @@ def _warm():
     """import everything and freeze the heap before forking (the first run in a fresh process costs seconds otherwise)"""
     import gc
     from harness import close_world
-    close_world.run_case({"cfg": "audio+video+dc", "flow": True, "closers": [{"peer": 0}], "settle_ms": 100})
+    # (no media flowing here: a codec / executor thread of the parent that holds a lock of libav at the moment of the fork
+    # leaves the children dead-locked in their first decode())
+    close_world.run_case({"cfg": "audio+video+dc", "flow": False, "closers": [{"peer": 0}], "settle_ms": 100})
+    import aiortc.codecs  # noqa: F401
     gc.freeze()
 
 
@@ -266,7 +360,8 @@ class Shutdown(Component):
         else:
             _warm()
             # heavy cases first, so that the pool drains evenly
-            order = sorted(range(len(todo)), key=lambda i: -(("video" in todo[i]["cfg"]) * 2 + bool(todo[i].get("flow"))))
+            order = sorted(range(len(todo)), key=lambda i: -(("video" in str(todo[i].get("cfg", todo[i].get("media")))) * 2
+                                                               + bool(todo[i].get("flow"))))
             with mp.get_context("fork").Pool(nproc, initializer=_quiet_worker) as pool:
                 res = pool.map(_pool_run, [todo[i] for i in order], chunksize=1)
             results = [None] * len(todo)
@@ -299,10 +394,14 @@ class Shutdown(Component):
 
     def model_line(self, case):
         r = self._get(case)
+        if r.get("void"):
+            return None
+        if r.get("broken"):
+            return "close broken " + r["broken"].replace(" ", "_")
         return "close run " + "|".join(";".join(t) or "-" for t in r["trace"])
 
     def oracle(self, case, impl_out):
-        return judge(self._get(case))
+        return judge_any(case, self._get(case))
 
     def label(self, case, impl_out):
         r = self._get(case)
@@ -334,8 +433,104 @@ class Shutdown(Component):
             yield dict(case, cfg="dc")
 
 
+EX_MEDIA = [["audio", "video"], ["audio", "video", "dc"], ["dc", "audio", "video"], ["audio", "dc"], ["dc"]]
+EX_KMAX = {"setLocal": 3, "setRemote": 7, "trxStop": 4}
+
+
+class Explore(Shutdown):
+    """systematic interleavings: close() after a negotiation call has passed k suspension points (harness/close_explore.py)"""
+    name = "interleave"
+    theorems = ["close_terminates", "no_stuck", "no_stuck_cleanups", "after_close", "tset_spec",
+                "close_stops_all_transports_present_at_snapshot", "cleanup_stops_what_it_discards",
+                "cleanup_disjoint_from_snapshot", "final_transports", "live_set_iteration_can_crash",
+                "snapshot_survives_the_same_schedule"]
+
+    def corpus(self):
+        return [
+            # seeded C19-r2-close-iterates-transport-sets: close() walking the transport *sets* while setRemoteDescription(answer)
+            # discards the bundled-away transport from them
+            {"x": 1, "policy": "balanced", "media": ["audio", "video"], "bundle": True, "call": [0, "setRemote", 0], "k": 0,
+             "closer": "same"},
+            {"x": 1, "policy": "balanced", "media": ["audio", "video", "dc"], "bundle": True, "call": [0, "setRemote", 0], "k": 1,
+             "closer": "same2"},
+            # transceiver.stop() by the application racing close()
+            {"x": 1, "policy": "max-bundle", "media": ["dc", "audio", "video"], "bundle": True, "call": [0, "trxStop", 0], "k": 1,
+             "closer": "same"},
+        ]
+
+    def cases(self, rng, tier):
+        from harness import close_explore as X
+        quick = tier == "quick"
+        out = []
+        # (1) systematic core: the calls that mutate the transport sets, every k, on the configurations with teardown work
+        core_cfgs = [("balanced", ["audio", "video"], True), ("balanced", ["audio", "video", "dc"], True),
+                     ("max-compat", ["audio", "video", "dc"], True), ("max-bundle", ["dc", "audio", "video"], True)]
+        if not quick:
+            core_cfgs = [(p, m, b) for p in X.POLICIES for m in EX_MEDIA for b in (True, False)]
+        for (pol, media, bundle) in core_cfgs:
+            for desc in ([0, "setRemote", 0], [1, "setRemote", 0], [0, "setLocal", 0], [1, "setLocal", 0]):
+                for k in range(0, EX_KMAX[desc[1]] + 1 if not quick else min(5, EX_KMAX[desc[1]] + 1)):
+                    closers = ["same"] if quick and k > 1 else (["same", "same2"] if quick else list(X.CLOSERS))
+                    for cl in closers:
+                        out.append({"x": 1, "policy": pol, "media": media, "bundle": bundle, "call": desc, "k": k, "closer": cl})
+        # (2) every call of the script x k x closer, sampled
+        n = 40 if quick else 600
+        for i in range(n):
+            pol = rng.choice(X.POLICIES)
+            media = rng.choice(EX_MEDIA)
+            cfg = {"policy": pol, "media": media, "bundle": rng.random() < 0.7}
+            calls = X.all_calls(cfg)
+            # after-connected calls cost seconds (the pair has to connect first): a few of them in the quick tier
+            first_late = next((j for j, c in enumerate(calls) if c[1] == "trxStop" or (c[1] == "add:dc" and c[0] == 0 and c[2] > 0)
+                               or (c[1] == "add:dc" and "dc" not in media)), len(calls))
+            late = rng.random() < (0.15 if quick else 0.3)
+            pool_ = calls[first_late:] if late and first_late < len(calls) else calls[:first_late]
+            desc = rng.choice(pool_)
+            kmax = EX_KMAX.get(desc[1], 1)
+            out.append(dict(cfg, x=1, call=desc, k=rng.randrange(0, kmax + 1), closer=rng.choice(X.CLOSERS)))
+        # de-duplicate
+        seen = set()
+        uniq = []
+        for c in out:
+            key = case_key(c)
+            if key not in seen:
+                seen.add(key)
+                uniq.append(c)
+        self._batch = list(self.corpus()) + uniq
+        return uniq
+
+    def label(self, case, impl_out):
+        r = self._get(case)
+        if r.get("void"):
+            return "void:" + r["void"].split(" raised")[0][:30]
+        fired = r.get("fired") or [0, True]
+        when = "end" if fired[1] else "k%d" % (fired[0] - 1)
+        return (f"{case['policy']}:{case['call'][1]}@{case['call'][0]}:{when}:{case['closer']}"
+                + ("+gather-leak" if gather_leak(r) else ""))
+
+    def nontrivial(self, case, impl_out):
+        r = self._get(case)
+        return not r.get("void")
+
+    def shrink(self, case):
+        # minimal (configuration, call, k): fewer suspension points first, then one closer, then a smaller configuration
+        for k in range(0, case["k"]):
+            yield dict(case, k=k)
+        if case["closer"] != "same":
+            yield dict(case, closer="same")
+        media = case["media"]
+        for i in range(len(media)):
+            if len(media) > 1:
+                yield dict(case, media=media[:i] + media[i + 1:])
+        if case["policy"] != "balanced":
+            yield dict(case, policy="balanced")
+        if not case.get("bundle", True):
+            yield dict(case, bundle=True)
+
+
 def components(tier):
-    return [Shutdown()]
+    # the explorer first: its failing inputs are the minimal (configuration, call, k) ones and cheap to shrink
+    return [Explore(), Shutdown()]
 
 
 def classify_finding(finding, comp_name, case, what):
